@@ -233,6 +233,7 @@ def run_real(case):
             it.close()
     return {'status': int(st[0].split()[0]) if st else None, 'params': _J.get('params'),
             'parts': _J.get('parts'), 'is_list': _J.get('is_list'), 'storage': _J.get('storage'),
+            'order': [[k, len(v)] for k, v in (_J.get('params') or {}).items()],
             'off': fp.pos, 'req_end': fp.req_end, 'len': len(body)}
 
 
@@ -266,7 +267,10 @@ def parse_model(line, case):
     kv = dict(x.split('=') for x in f[1:3])
     mixed = case.get('subtype', 'form-data') != 'form-data'
     params, parts, storage = {}, [], []
-    i = 3
+    g = f[3][2:]
+    groups = [] if g == '-' else [[(_unhex(x.split(':')[0]) or b'').decode('latin-1'),
+                                   [int(n) for n in x.split(':')[1].split('+')]] for x in g.split(',')]
+    i = 4
     undec = False
     while i < len(f):
         assert f[i] == 'P'
@@ -290,7 +294,7 @@ def parse_model(line, case):
             params.setdefault('parts' if name is None else name, []).append(e)
     if undec:
         return {'status': 400, 'params': None, 'parts': None, 'err': 'decode'}
-    return {'status': 200, 'params': params, 'parts': parts, 'storage': storage,
+    return {'status': 200, 'params': params, 'parts': parts, 'storage': storage, 'groups': groups,
             'consumed': len(serialize(case)) - int(kv['rest'])}
 
 
@@ -536,6 +540,9 @@ def check_cases(ctx, cases, compare=True, stats=True):
             if impl != mm and not unknown_fail:
                 ctx.disagree(case, impl, mm, 'multipart parser and model differ (%s)'
                              % ('status' if impl['status'] != mm['status'] else 'parts'))
+            elif obs['status'] == 200 and m['status'] == 200 and case.get('subtype', 'form-data') == 'form-data' \
+                    and obs['order'] != [[k, len(v)] for k, v in m['groups']] and not unknown_fail:
+                ctx.disagree(case, obs['order'], m['groups'], 'parameter dict: key order / number of values')
             elif obs['status'] == 200 and m['status'] == 200 and obs.get('storage') is not None \
                     and case.get('subtype', 'form-data') == 'form-data' and obs['storage'] != m['storage'] \
                     and not unknown_fail:
